@@ -315,14 +315,15 @@ class Ctx:
         return True
 
     def add_violation(self, part, signature, detail, case, shrink_calls=0):
-        os.makedirs(os.path.join(VERIF, 'replays'), exist_ok=True)
+        rdir = os.environ.get('VERIF_REPLAY_DIR') or os.path.join(VERIF, 'replays')
+        os.makedirs(rdir, exist_ok=True)
         body = {'property': self.prop, 'part': part, 'signature': signature,
                 'detail': detail, 'case': json.loads(canon(case)),
                 'seed': self.seed, 'tier': self.tier,
                 'shrink_executions': shrink_calls}
         h = hashlib.blake2b(canon(body['case']).encode() + signature.encode(),
                             digest_size=4).hexdigest()
-        path = os.path.join(VERIF, 'replays', '%s-%s.json' % (self.prop, h))
+        path = os.path.join(rdir, '%s-%s.json' % (self.prop, h))
         with open(path, 'w') as f:
             json.dump(body, f, indent=1, sort_keys=True)
         body['replay'] = path
